@@ -71,6 +71,9 @@ func (c *Ctx) add(rule, fn, desc string, pos token.Pos, v Verdict, msg string) *
 	}
 	o := &Oblig{Rule: rule, Key: key, Func: fn, Pos: c.P.pos(pos), Verdict: v, Msg: msg}
 	c.Obligs = append(c.Obligs, o)
+	if dbg := os.Getenv("HLDEBUG_RULE"); dbg != "" && dbg == rule {
+		fmt.Fprintf(os.Stderr, "DBG %v %s: %s\n", v, key, msg)
+	}
 	if fn != "" {
 		c.FuncsAnalysed[fn] = true
 	}
